@@ -12,6 +12,7 @@ PANIC_CALLS = [
     (r'^std::rt::(panic_fmt|begin_panic)', 'panic'),
     (r'::assert_failed', 'panic'),
     (r'as std::ops::Index(Mut)?<.*>>::index(_mut)?$', 'index'),
+    (r'<impl std::ops::Index(Mut)?<.*> for .*>::index(_mut)?$', 'index'),       # `&s[1..]` on str, `&v[a..b]` on slices (impl-path spelling)
     (r'^<(usize|isize|u\d+|i\d+) as std::ops::(Add|Sub|Mul|Div|Rem|Shl|Shr|Neg)(<.*>)?>::', 'intop'),
     (r'^<(usize|isize|u\d+|i\d+) as std::ops::(Add|Sub|Mul|Div|Rem|Shl|Shr)Assign(<.*>)?>::', 'intop'),
     (r'^<&(usize|isize|u\d+|i\d+) as std::ops::(Add|Sub|Mul|Div|Rem)(<.*>)?>::', 'intop'),
